@@ -21,10 +21,11 @@ def pos(tag: str, extra: dict | None = None) -> HDict:
     return d
 
 
-def representative(with_position: bool = True) -> HDict:
+def representative(with_position: bool = True, suffix: str = "") -> HDict:
     """MAP -> WEB (singleton), LAYER[0] -> CLASS[0] -> STYLE[0]; FEATURE with POINTS; list-valued
     keywords SIZE / EXTENT / COLOR; key/value block METADATA."""
-    num = lambda n: SNum.sym(n, None, None)
+    num = lambda n: SNum.sym(n + suffix, None, None)
+    P = lambda tag, extra=None: pos(tag + suffix, extra)
     style = cdict([("__type__", "style"), ("color", [num("r"), num("g"), num("b")]), ("width", num("w"))])
     cls = cdict([("__type__", "class"), ("name", word("cname")), ("styles", [style])])
     md = cdict([("__type__", "metadata"), ("wms_title", word("title"))])
@@ -33,13 +34,13 @@ def representative(with_position: bool = True) -> HDict:
     web = cdict([("__type__", "web"), ("template", word("tmpl"))])
     root = cdict([("__type__", "map"), ("name", word("mname")), ("size", [num("sx"), num("sy")]), ("web", web), ("layers", [layer])])
     if with_position:
-        style["__position__"] = pos("style", {"color": pos("style_color"), "width": pos("style_width")})
-        cls["__position__"] = pos("class", {"name": pos("class_name")})
-        md["__position__"] = pos("metadata")
-        feat["__position__"] = pos("feature", {"points": pos("feature_points")})
-        layer["__position__"] = pos("layer", {"name": pos("layer_name"), "type": pos("layer_type"), "extent": pos("layer_extent"), "processing": [pos("layer_processing0"), pos("layer_processing1")]})
-        web["__position__"] = pos("web", {"template": pos("web_template")})
-        root["__position__"] = pos("map", {"name": pos("map_name"), "size": pos("map_size")})
+        style["__position__"] = P("style", {"color": P("style_color"), "width": P("style_width")})
+        cls["__position__"] = P("class", {"name": P("class_name")})
+        md["__position__"] = P("metadata")
+        feat["__position__"] = P("feature", {"points": P("feature_points")})
+        layer["__position__"] = P("layer", {"name": P("layer_name"), "type": P("layer_type"), "extent": P("layer_extent"), "processing": [P("layer_processing0"), P("layer_processing1")]})
+        web["__position__"] = P("web", {"template": P("web_template")})
+        root["__position__"] = P("map", {"name": P("map_name"), "size": P("map_size")})
     return root
 
 
@@ -85,3 +86,39 @@ def create_message(env: models.Env, path: list, add_comments: bool = False, with
     if len(outs) != 1:
         raise AnalysisError(f"create_message forks on path {path}")
     return outs[0], holder["root"]
+
+
+def validate_roots(env: models.Env, paths: list, n_roots: int = 2):
+    """Validator.validate evaluated on a list of ``n_roots`` representative root dictionaries (positions
+    tagged _r0, _r1, ...), with jsonschema replaced by a stand-in that reports one error at each of ``paths``
+    for every root.  Everything of the repository between validate() and create_message() runs as written.
+    Returns (outcome, roots)."""
+    holder: dict = {"n": 0}
+    vobj = SObj("Draft4Validator", {}, methods=("iter_errors",))
+
+    def meth(fr, recv, name, args, kwargs, node):
+        if recv is vobj and name == "iter_errors":
+            holder["n"] += 1
+            return [SObj("ValidationError", {"message": SStr.atom("errmsg", free=True), "absolute_path": list(p)}) for p in paths]
+        return NotImplemented
+
+    stubs = {
+        "validator.Validator.get_schema_validator": lambda I_, so, a, k: vobj,
+        "validator.Validator.convert_lowercase": lambda I_, so, a, k: HDict({"lowered": True}),
+        "ext:json.dumps": lambda fr, so, a, k: "<json>",
+        "ext:json.loads": lambda fr, so, a, k: SObj("jsn", {}),
+        "hook:method": meth,
+    }
+    I = env.interp(stubs=stubs, allow_fork=False, max_depth=40)
+
+    def make():
+        holder["n"] = 0
+        holder["roots"] = [representative(True, f"_r{i}") for i in range(n_roots)]
+        return models.new_validator(I), [list(holder["roots"])], {}
+
+    outs = I.explore("validator.Validator.validate", make)
+    if len(outs) != 1:
+        raise AnalysisError("validate forks on a list of roots")
+    if holder["n"] != n_roots and outs[0].kind == "return":
+        raise AnalysisError(f"validate consulted the schema validator {holder['n']} time(s) for {n_roots} roots")
+    return outs[0], holder["roots"]
